@@ -234,6 +234,16 @@ def result_pipeline(cx: Cx, fn, paths: List[Path], p: Path, ret: Term, table=Non
     if isinstance(src, App) and src.fn in ('.imap_unordered', '.imap', '.map') and len(src.args) in (3, 4) and \
             all(k == 'chunksize' for k, _ in (src.kw or ())):       # chunksize only batches the dispatch (trusted library)
         F, W, x, via = src.args[1], src.args[2], v, src.fn
+        # ... provided it is at least 1 (Pool.imap raises ValueError for 0; Pool.map takes None as "choose for me")
+        chunks = list(src.args[3:]) + [cv for k, cv in (src.kw or ()) if k == 'chunksize']
+        for cz in chunks:
+            cz = strip_versions(cz)
+            mm = cz if isinstance(cz, App) and cz.fn == 'max' else None
+            ok_cz = (isinstance(cz, Num) and cz.value >= 1) or (cz == Const(None) and src.fn == '.map') or \
+                (mm is not None and any(isinstance(a, Num) and a.value >= 1 for a in mm.args))
+            if not ok_cz:
+                return (f"the pool map is given chunksize={cz!r}, which is not known to be at least 1: with fewer work items than worker "
+                        f"processes it is 0 and the map raises ValueError, although the serial arm answers")
     elif isinstance(src, App) and src.fn in ('map', 'call') and Sym('builtins.map') in src.args[:1] and len(src.args) == 3:
         F, W, x, via = src.args[1], src.args[2], v, 'serial'
     elif isinstance(src, App) and src.fn == 'map' and len(src.args) == 2 and not src.kw:
